@@ -353,6 +353,34 @@ func moSortedBeforeUse(c *Ctx, p *packages.Package, target string, rest []ast.St
 			if sel.Sel.Name == "Sort" {
 				return "slices.Sort", true
 			}
+			if (sel.Sel.Name == "SortFunc" || sel.Sel.Name == "SortStableFunc") && len(call.Args) == 2 {
+				if fl, ok := call.Args[1].(*ast.FuncLit); ok {
+					var ps []string
+					for _, f := range fl.Type.Params.List {
+						for _, n := range f.Names {
+							ps = append(ps, n.Name)
+						}
+					}
+					if len(ps) == 2 {
+						acc := map[string]bool{}
+						for _, o := range c.run(engines["LX"]) {
+							if o.Rule == "LX-swo" && o.Status == Discharged {
+								acc[o.Key] = true
+							}
+						}
+						e := &lxEnv{info: p.TypesInfo, fset: c.L.Fset, pair: map[string]string{ps[0]: ps[1], ps[1]: ps[0]}, acc: acc, l: ps[0], r: ps[1], leftLocals: map[string]bool{}}
+						res := e.analyse(lxCmpToLess(fl.Body))
+						if !res.ok {
+							return "is sorted with a comparator that is not a recognised strict order: " + res.why, false
+						}
+						last := strings.ReplaceAll(res.last, " ", "")
+						if res.total && strings.HasSuffix(last, ".IDs[0]") {
+							return "slices." + sel.Sel.Name + " with a three-way comparator chain that ends in a key unique per element (" + res.last + ")", true
+						}
+						return "is sorted with a comparator that leaves ties (the last key " + res.last + " is not unique per element)", false
+					}
+				}
+			}
 			return "is sorted with slices." + sel.Sel.Name + ", whose comparator is not analysed", false
 		}
 		switch sel.Sel.Name {
